@@ -86,8 +86,8 @@ Definition descr (tbl : list pte_entry) (pte : N) : descr_res :=
 (* ---- parse_ilog_data ---- *)
 Inductive ilog_res := IOk (lines : list text) | IUnsupported | IAssert | IOutOfFuel.
 
-Definition icons (l : option text) (r : ilog_res) : ilog_res :=
-  match r with IOk ls => IOk (match l with Some x => x :: ls | None => ls end) | other => other end.
+Definition icons (l : text) (r : ilog_res) : ilog_res :=
+  match r with IOk ls => IOk (l :: ls) | other => other end.
 
 (* DataStream.get_int(n): None = the range assertion fails *)
 Definition get_int (n : nat) (d : bytes) : option (N * bytes) :=
@@ -112,7 +112,7 @@ Fixpoint ilog_loop (fuel : nat) (tbl : list pte_entry) (d : bytes) : ilog_res :=
                 | Some (pte, d3) =>
                     if (ts =? 0) && (seq =? 0) && (pte =? 0) then ilog_loop f tbl d3
                     else match entry_line tbl ts seq pte with
-                         | DOk l => icons (Some l) (ilog_loop f tbl d3)
+                         | DOk l => icons l (ilog_loop f tbl d3)
                          | DUnsupported => IUnsupported
                          end
                 | None => IAssert
@@ -128,10 +128,19 @@ Definition heading : list text :=
   [L "hh:mm:ss seq  pppppppp description";
    L "-------- ---- -------- ------------------------------------"].
 
+Definition with_heading (r : ilog_res) : ilog_res :=
+  match r with IOk ls => IOk (heading ++ ls) | other => other end.
+
 Definition parse_ilog (tbl : list pte_entry) (d : bytes) : ilog_res :=
-  if table_supported tbl then
-    match ilog_loop (S (length d)) tbl d with
-    | IOk ls => IOk (heading ++ ls)
-    | other => other
-    end
-  else IUnsupported.
+  if table_supported tbl then with_heading (ilog_loop (S (length d)) tbl d) else IUnsupported.
+
+(* ---- used to state the theorems: the line of one 8-byte entry, and a list of line results as one result ---- *)
+Definition line (tbl : list pte_entry) (e : bytes) : descr_res :=
+  entry_line tbl (be_val (firstn 2 e) 0) (be_val (firstn 2 (skipn 2 e)) 0) (be_val (skipn 4 e) 0).
+
+Fixpoint lines_of (rs : list descr_res) : ilog_res :=
+  match rs with
+  | [] => IOk []
+  | DOk l :: t => icons l (lines_of t)
+  | DUnsupported :: _ => IUnsupported
+  end.
